@@ -21,7 +21,6 @@ from concurrent.futures import ThreadPoolExecutor
 import common
 
 CASES_DIR = os.path.join(common.BUILD, "cases_C02")
-MY_GEN = {"RuleChecks", "Registry", "Lists", "Dict", "LexTables", "Catalogue", "*"}
 
 # check class -> Coq function
 MODELLED = {"CheckTernary": "check_ternary", "CheckLineLen": "check_line_len", "CheckLabel": "check_label",
@@ -29,7 +28,9 @@ MODELLED = {"CheckTernary": "check_ternary", "CheckLineLen": "check_line_len", "
             "CheckLineIndent": "check_line_indent", "CheckSpacing": "check_spacing",
             # second batch (Gen/MoreChecks.v); the first is a slice that also takes context.file.type
             "CheckUtypeDeclaration": "(fun t s v => check_utype_forbidden t s ft v)", "CheckExpressionStatement": "check_expression_statement",
-            "CheckControlStatement": "check_control_statement"}
+            "CheckControlStatement": "check_control_statement",
+            # third batch (Gen/NameChecks.v): other signatures, adapted to `result` in the cases file; extra inputs xf xp xv xc
+            "CheckIdentifierName": "adapt_ident xf xp xv", "CheckComment": "adapt_comment xc"}
 # slices: only these codes are emitted by the translated part (Gen: check_*_codes); an exception of the untranslated rest is not compared
 SLICE_CODES = {"CheckUtypeDeclaration": {"TYPE_NOT_GLOBAL", "FORBIDDEN_STRUCT", "FORBIDDEN_UNION", "FORBIDDEN_ENUM", "FORBIDDEN_TYPEDEF"},
                "CheckControlStatement": {"WRONG_SCOPE", "EXP_NEWLINE", "FORBIDDEN_CS", "ASSIGN_IN_CONTROL"}}
@@ -70,10 +71,26 @@ def _install_probe():
                 seen += 1
         if n - lo < 3:
             lo = max(0, n - 3)
+        if name == "CheckComment":
+            # is_inside_a_function scans back to the newest IsFuncDeclaration that is followed by an IsBlockStart
+            k = n - 1
+            while k > 0 and not (hist[k - 1].name == "IsFuncDeclaration" and hist[k].name == "IsBlockStart"):
+                k -= 1
+            lo = min(lo, max(0, k - 1))
         item = {"check": name, "ntoks": len(toks0), "scope": context.tkn_scope, "hlen": n, "ftype": context.file.type,
                 "hist": [h.name for h in reversed(hist[lo:])], "hist_cut": lo > 0,
                 "sname": sc.name, "glob": type(sc) is GlobalScope, "indent": sc.indent,
                 "ia": bool(sc.include_allowed), "va": bool(sc.vdeclarations_allowed), "oc": 0}
+        if name == "CheckIdentifierName":
+            root = sc
+            while root.parent is not None:
+                root = root.parent
+            fn_ = getattr(root, "fnames", [])
+            item["xf"] = fn_[-1] if fn_ else None
+            item["xp"] = context.fname_pos
+            item["xv"] = [(t_.value or "", t_.pos[0], t_.pos[1]) for t_ in sc.vars_name]
+        if name == "CheckComment":
+            item["xc"] = type(sc).__name__.lower()
         # which token positions the check really reads (peek_token is the only accessor besides tokens[:tkn_scope])
         reads = [-1, 0]
         orig_peek = context.peek_token
@@ -167,18 +184,28 @@ def probe_run(src, name, limit=4.0):
 
 
 # ------------------------------------------------------------------------------------------------ replay in the model
+def cs_(x):
+    """a Python string as a Coq `str` (code points)"""
+    return "(S_ [%s])" % "; ".join("%d%%nat" % ord(ch) for ch in x)
+
+
 def coq_cases_text(cases, types, rules, codes):
     """cases: [rec] -> text of a cases file; every case carries its own token window and history suffix.
     The window is exact: it holds every position the implementation read (recorded through peek_token), and the last
     token of the file for the index -1; when the history is cut, at least three entries and the newest three that
     CheckLineIndent does not skip are kept (the len(history) tests of the checks compare with 1 only)."""
-    o = ["From NV Require Import Model.Base Model.RuleChecks Gen.RuleChecks Gen.MoreChecks.\nOpen Scope Z_scope.\n"]
+    o = ["From NV Require Import Model.Base Model.RuleChecks Gen.RuleChecks Gen.MoreChecks Model.NameBase Gen.NameChecks.\nOpen Scope Z_scope.\n"]
     o.append("Definition tys : list str := [%s].\n" % "; ".join('s "%s"' % t for t in types))
     o.append("Definition rls : list str := [%s].\n" % "; ".join('s "%s"' % t for t in rules))
     o.append("Definition cds : list str := [%s].\n" % "; ".join('s "%s"' % t for t in codes))
     o.append("Definition T (k : nat) (l c : Z) : token := mk_tok (nth k tys []) l c.\n")
     o.append("Definition R (k : nat) : str := nth k rls [].\nDefinition C (k : nat) (l c : Z) : em := (nth k cds [], l, c).\n")
-    o.append("Definition run_check (k : nat) (ft : str) := match k with %s | _ => check_ternary end.\n" % " | ".join(
+    o.append("Definition adapt_ident (xf : option str) (xp : Z) (xv : list (str * Z * Z)) (toks : list token) (scope : Z) (v : view) : result :=\n"
+             "  match check_identifier_name toks (hd [] (v_history v)) (v_scope_global v) (str_eqb (v_scope_name v) (s \"UserDefinedType\")) xf xp xv with\n"
+             "  | Ok E => Ok (E, v) | Fatal m => Fatal m | Crash e => Crash e | Hang => Hang end.\n")
+    o.append("Definition adapt_comment (xc : str) (toks : list token) (scope : Z) (v : view) : result := Ok (check_comment toks (v_history v) xc, v).\n")
+    o.append("Definition S_ (l : list nat) : str := map N.of_nat l.\n")
+    o.append("Definition run_check (k : nat) (ft : str) (xf : option str) (xp : Z) (xv : list (str * Z * Z)) (xc : str) := match k with %s | _ => check_ternary end.\n" % " | ".join(
         "%d%%nat => %s" % (i, MODELLED[c]) for i, c in enumerate(CHECK_IDS)))
     ti = {t: i for i, t in enumerate(types)}
     ri = {t: i for i, t in enumerate(rules)}
@@ -187,18 +214,21 @@ def coq_cases_text(cases, types, rules, codes):
     o.append("Definition agrees_x (r : result) (oc : Z) (ex : exn) (E : list em) (ia va : bool) : bool :=\n"
              "  match r with Crash e => (oc =? 2) && exn_eqb e ex | _ => agrees r oc E ia va end.\n")
     o.append("Definition one (id : Z) (toks : list token) (cut : bool) (hist : list str) (ck : nat) (scope : Z) (sname : str) (glob : bool) (indent : Z)\n"
-             "  (ia va : bool) (oc : Z) (ex : exn) (E : list em) (ia2 va2 : bool) (ft : str) : list Z :=\n"
+             "  (ia va : bool) (oc : Z) (ex : exn) (E : list em) (ia2 va2 : bool) (ft : str)\n"
+             "  (xf : option str) (xp : Z) (xv : list (str * Z * Z)) (xc : str) : list Z :=\n"
              "  let v := mkview hist sname glob indent ia va in\n"
-             "  if agrees_x (run_check ck ft toks scope v) oc ex E ia2 va2 then [] else [id].\n")
+             "  if agrees_x (run_check ck ft xf xp xv xc toks scope v) oc ex E ia2 va2 then [] else [id].\n")
     o.append("Definition results : list Z := List.concat [\n")
     lines = []
     b = lambda x: "true" if x else "false"  # noqa
     for cid, r in enumerate(cases):
-        lines.append(" one %d [%s] %s [%s] %d (%d) (s \"%s\") %s (%d) %s %s %d %s [%s] %s %s (s \"%s\")" % (
+        lines.append(" one %d [%s] %s [%s] %d (%d) (s \"%s\") %s (%d) %s %s %d %s [%s] %s %s (s \"%s\") %s (%d) [%s] %s" % (
             cid, "; ".join("T %d %d %d" % (ti[t], l, c) for t, l, c in r["win"]), b(r["cut"]),
             "; ".join("R %d" % ri[h] for h in r["hist"]), CHECK_IDS.index(r["check"]), r["scope"], r["sname"], b(r["glob"]),
             r["indent"], b(r["ia"]), b(r["va"]), r["oc"], EXN.get(r.get("exc"), "Unmodelled"), "; ".join("C %d %d %d" % (ci[c], l, k) for c, l, k in r["em"]),
-            b(r["ia2"]), b(r["va2"]), r.get("ftype", ".c")))
+            b(r["ia2"]), b(r["va2"]), r.get("ftype", ".c"),
+            ("None" if r.get("xf") is None else "(Some %s)" % cs_(r["xf"])), r.get("xp", 0),
+            "; ".join("(%s, %d, %d)" % (cs_(a), l, k) for a, l, k in r.get("xv", [])), cs_(r.get("xc", ""))))
     o.append(";\n".join(lines) + "].\nEval vm_compute in results.\n")
     return "".join(o)
 
@@ -368,6 +398,8 @@ def _search_work(args):
             ok = edits.expect_ok(r, o.code, e.line)
             fid = edits.known_miss(oid, e, P)
             item = {"op": oid, "ctx": e.ctx, "ok": ok, "fid": fid, "nsites": len(ss)}
+            if oid in ("D04", "F03", "F04", "F05"):
+                item["src"] = e.src            # replayed against the scope / counter models as well
             if not ok:
                 lines = e.src.split("\n")
                 item.update({"src": e.src, "line": e.line, "code": o.code, "kind": r["kind"], "status": r.get("status"),
@@ -454,8 +486,8 @@ def run(run, tier, seed, replay=None):
     import edits
     t0 = time.time()
     b = common.build(["C02"], need_driver=False)
-    # only the generated layers this property builds on can break its tie
-    b.translate_errors = [e for e in b.translate_errors if e[0] in MY_GEN]
+    # common.build keeps exactly the translation errors of the Gen files Props/C02.v depends on (RuleChecks, MoreChecks,
+    # NameChecks, Counters, ScopeOps, Registry, ...): every one of them breaks this property's tie
     run.build = b
     phases = {"build_s": round(time.time() - t0, 1)}
     found = False
@@ -538,6 +570,19 @@ def run(run, tier, seed, replay=None):
     # correspondence on the recorded invocations
     cfound, cstats = correspondence(run, probes, rnd, max_cases)
     found |= cfound
+    # the limit operators (D04 F03 F04 F05) rest on the scope / counter models: replay them on the limit programs and a sample
+    if b.make_ok:
+        import scopecorr
+        sprogs = [(name, src) for (_, _, name, src, _, _, _) in lim[(seed % step)::step]]
+        sprogs += [(o["name"], o["src"]) for o in outs if o["base_ok"]][:(24 if tier == "quick" else 300)]
+        sprogs += scopecorr.variants(sprogs[::4], rnd)
+        # ... and on the EDITED files of those four operators (one past the limit: the models must emit there as well)
+        lim_edits = [(o["name"], it["src"]) for o in outs if o["base_ok"] for it in o["results"]
+                     if it.get("op") in ("D04", "F03", "F04", "F05") and "src" in it]
+        sprogs += lim_edits[::max(1, len(lim_edits) // (24 if tier == "quick" else 300))]
+        sfound, sstats = scopecorr.check(run, b, sprogs)
+        found |= sfound
+        cstats["scope_and_counter_models"] = sstats
     phases["correspondence_s"] = round(time.time() - t0 - phases["build_s"] - phases["search_s"], 1)
     proved = proved_operator_ids() if (b.make_ok and not b.open_assumptions) else []
     table = {}
@@ -577,7 +622,7 @@ def run(run, tier, seed, replay=None):
              "sites_per_operator_and_program": k, "correspondence": cstats, "phases": phases,
              "modelled_checks": sorted(MODELLED), "unmodelled": "all other checks and all primaries: tested through the search only"}
     return run.finish(max(len(b.theorems), 29), disc, RULE, extra=extra, assumptions=[
-        "C02 is claimed PARTIAL: theorems are about the generated models of 7 checks (token-local, unbounded); the other operators are tested",
+        "C02 is claimed PARTIAL: theorems are about the generated models of 12 checks (token-local, unbounded) and the scope / counter models of the four limits; the other operators are tested",
         "the primaries are an oracle in the engine model; `_given_history` / `_given_trace` hypotheses are validated on recorded runs only",
         "the exit-status part of the property is C04's theorem; here the file status (Error) is tested"])
 
